@@ -31,8 +31,9 @@ UNITS = {
                   "fn_props": {**PRELUDE_FNS, "em_\\d+": ["C08", "C16"], "as_proc_def|as_call|as_jmps_loops": ["C08", "C14"],
                                "as_procedure": ["C08", "C16"], "as_int": ["C14", "C18"], "as_offset": ["C12", "C14"],
                                "as_byte_label|as_word_label|as_unsupported|as_offset_as_byte": ["C14"], "as_d[bw]_.*|as_set|advance_data_counter": ["C12", "C14"], "add_entry": ["C16"], "new|get_type": ["C08", "C14"]}},
-    "driver": {"tpl": "driver.rs", "props": ["C07", "C08", "C12", "C14", "C17", "C18", "C19"],
-               "fn_props": {**PRELUDE_FNS, "run": ["C08"], "user_interface": ["C17"], "get_type|get_source_map": ["C08", "C14"]}},
+    "driver": {"tpl": "driver.rs", "props": ["C07", "C08", "C12", "C14", "C17", "C18", "C19", "C20"],
+               "fn_props": {**PRELUDE_FNS, "run": ["C08"], "user_interface": ["C20"], "note_prompt": ["C20"], "lemma_least_undefined": ["C19", "C14"],
+                            "get_type|get_source_map": ["C08", "C14"]}},
 }
 
 VERUS_TRUSTED = [
@@ -87,7 +88,17 @@ def fn_spans(text: str):
             base_line = text.count("\n", 0, m.start() + em.end()) + 1
             cur, d, ln0 = "", 0, base_line
             ln = base_line
+            in_comment = False
+            prev = ""
             for ch in seg:
+                if ch == "/" and prev == "/":
+                    in_comment = True
+                    cur = cur[:-1]
+                prev = ch
+                if ch == "\n":
+                    in_comment = False
+                if in_comment:
+                    continue
                 if ch in "([{":
                     d += 1
                 elif ch in ")]}":
@@ -226,6 +237,12 @@ def run_unit(unit: str, dst: str, root: str):
         open(os.path.join(keep, f"verus_{unit}.rs"), "w").write(text)
     wall = time.time() - t0
     spans = fn_spans(text)
+    # tagged obligations: `//# C08,C12 name` at the end of an ensures clause / invariant / decreases line
+    tags = {}
+    for ln, line in enumerate(text.split("\n"), 1):
+        tm = re.search(r"//#\s*((?:C\d\d,?)+)\s+(\S+)", line)
+        if tm:
+            tags[ln] = {"props": tm.group(1).strip(",").split(","), "name": tm.group(2), "decreases": line.strip().startswith("decreases")}
     errors = []
     # human readable diagnostics on stderr: blocks starting with "error"
     for blk in re.split(r"\n(?=error)", p.stderr):
@@ -253,22 +270,39 @@ def run_unit(unit: str, dst: str, root: str):
         mine = [e for e in errors if any(sp["start"] <= l <= sp["end"] for l in e["lines"])]
         timeout = any("rlimit" in e["text"] or "resource limit" in e["text"].lower() or "timed out" in e["text"].lower() for e in mine)
         failed_clause_lines = set()
+        failed_tag_lines = set()
         other = False
+        clause_lines = set()
+        for (l0, l1, _t) in sp["clauses"]:
+            clause_lines.update(range(l0, l1 + 1))
+        mytags = {ln: t for ln, t in tags.items() if sp["start"] <= ln <= sp["end"] and ln not in clause_lines}
         for e in mine:
             f["messages"].append(e["text"][:800])
             if "postcondition not satisfied" in e["head"]:
-                fl = re.findall(r"^\s*(\d+) \|[^\n]*\n[^\n]*failed this postcondition", e["text"], re.M)
+                # multi-line clauses are printed with a `/ ... |____^` frame: every line number of the frame is collected
+                seg = e["text"].split("failed this postcondition")[0]
+                fl = re.findall(r"^\s*(\d+) \|", seg, re.M)
                 if fl:
                     failed_clause_lines.update(int(x) for x in fl)
                 else:
                     other = True
+            elif "invariant not satisfied" in e["head"] and e["lines"] and e["lines"][0] in mytags:
+                failed_tag_lines.add(e["lines"][0])
+            elif "decreases not satisfied" in e["head"] and any(t["decreases"] for t in mytags.values()):
+                failed_tag_lines.update(ln for ln, t in mytags.items() if t["decreases"])
             else:
                 other = True
         for k, (l0, l1, txt) in enumerate(sp["clauses"]):
             st = "discharged"
             if any(l0 <= fl <= l1 for fl in failed_clause_lines):
                 st = "undecided" if timeout else "refuted"
-            f["clauses"].append({"k": k, "text": txt[:300], "status": st})
+            tg = next((tags[ln] for ln in range(l0, l1 + 1) if ln in tags), None)
+            f["clauses"].append({"k": k, "text": txt[:300], "status": st, "name": tg["name"] if tg else None, "props": tg["props"] if tg else None})
+        f["tagged"] = []
+        lines_all = text.split("\n")
+        for ln, tg in sorted(mytags.items()):
+            st = ("undecided" if timeout else "refuted") if ln in failed_tag_lines else "discharged"
+            f["tagged"].append({"name": tg["name"], "props": tg["props"], "status": st, "text": re.sub(r"\s+", " ", lines_all[ln - 1].split("//#")[0].strip())[:300]})
         if other:
             f["total"] = "undecided" if timeout else "refuted"
         if failed_clause_lines and not any(c["status"] != "discharged" for c in f["clauses"]):
@@ -298,11 +332,19 @@ def run_for_property(pid, tier, seed, dst, root, rep, findings):
                 ntotal += 1
         for f in r["fns"]:
             fprops = fn_props(unit, f["name"])
-            if pid not in fprops:
+            allc = []
+            for c in f["clauses"]:
+                if pid in (c.get("props") or fprops):
+                    allc.append((c.get("name") or f"ensures#{c['k']}", c["status"], c["text"]))
+            for tg in f.get("tagged", []):
+                if pid in tg["props"]:
+                    allc.append((tg["name"], tg["status"], tg["text"]))
+            if pid in fprops:
+                allc.append(("total", f["total"], "no overflow / index in bounds / callee preconditions / untagged loop invariants / termination"))
+            if not allc:
                 continue
             ntotal += 1
             rep.functions.add(f"{unit}::{f['name']}")
-            allc = [(f"ensures#{c['k']}", c["status"], c["text"]) for c in f["clauses"]] + [("total", f["total"], "no overflow / index in bounds / callee preconditions / loop invariants / termination")]
             for cname, st, txt in allc:
                 oid = f"verus:{unit}::{f['name']}"
                 known = [k for k in kf if k["unit"] == unit and k["fn"] == f["name"] and k["clause"] == cname]
